@@ -360,7 +360,6 @@ class MCNP_Problem:
                         matching_map[match] = surface
         for cell in self.cells:
             cell.remove_duplicate_surfaces(matching_map)
-        self.__update_internal_pointers()
         for surface in to_delete:
             self._surfaces.remove(surface)
 
